@@ -278,7 +278,7 @@ TRUSTED = [
 ]
 
 HOOK_COMMITS = ["903a2e5", "7f71e80"]
-FIX_COMMITS = ["7b7a5a0", "885588c", "58c8a9f", "3d46a06", "0180007"]
+FIX_COMMITS = ["7b7a5a0", "885588c", "58c8a9f", "3d46a06", "0180007", "7197610", "0564c68"]
 NOT_APPLICABLE = {}
 
 CORE_TRUST = ("Lean kernel + {propext, Classical.choice, Quot.sound}; hand-written L1 model tied to the code by the "
